@@ -1969,9 +1969,6 @@ package sarama
 //@ func (c *consumerGroup) retryNewSession(ctx, topics, handler, retries, refreshCoordinator) trusted
 //@   returns s, err
 //@   modifies c.memberID, c.userData
-//@ func newConsumerGroupSession(ctx, parent, claims, memberID, generationID, handler) trusted
-//@   returns s, err
-//@   modifies nothing
 //@ func (c *consumerGroup) balance(members) trusted
 //@   returns plan, err
 //@   modifies nothing
@@ -2567,4 +2564,33 @@ package sarama
 //@   ensures[final_flush_attempted] old(om.conf.Consumer.Offsets.AutoCommit.Enable) ==> om.flushes >= old(om.flushes) + 1
 //@   ensures[attempts_bounded] om.flushes <= old(om.flushes) + old(om.conf.Consumer.Offsets.Retry.Max) + 1
 //@   ensures[no_flush_without_auto_commit] !old(om.conf.Consumer.Offsets.AutoCommit.Enable) ==> om.flushes == old(om.flushes)
+//@   nosafety
+
+// (C07) newConsumerGroupSession: Setup runs exactly once per session, after the partition offset managers have
+// been created and before any claim is started; one claim is started per assigned (topic, partition); a failing
+// Setup ends the session (release with cleanup) and no claim is started.
+//@ ghost field consumerGroupSession.setups int
+//@ func newOffsetManagerFromClient(group, memberID, generation, client) trusted
+//@   returns om, err
+//@   ensures err == nil ==> om != nil
+//@   modifies nothing
+//@ func (om *offsetManager) ManagePartition(topic, partition) trusted
+//@   returns pom, err
+//@   ensures err == nil ==> pom != nil
+//@   modifies nothing
+//@ func (s *consumerGroupSession) release(withCleanup) trusted
+//@   returns err
+//@   modifies nothing
+//@ func newConsumerGroupSession(ctx, parent, claims, memberID, generationID, handler) props C07
+//@   returns s, err
+//@   per_return
+//@   callsite ConsumerGroupHandler.Setup: effect sess.setups == old(sess.setups) + 1
+//@   callsite ConsumerGroupHandler.Setup: modifies sess.setups
+//@   callsite ConsumerGroupHandler.Setup: requires[setup_with_this_session] $arg0 == sess && sess.setups == 0
+//@   callsite Add: requires[setup_before_any_claim] sess.setups == 1
+//@   callsite consumerGroupSession.release#1: requires[failed_setup_ends_the_session_with_cleanup] $withCleanup && sess.setups == 1
+//@   loop 2: invariant sess.setups == 1
+//@   loop 3: invariant sess.setups == 1
+//@   loop 3: iter_ensures[one_claim_per_assigned_partition] wgcount(sess.waitGroup) == it(wgcount(sess.waitGroup)) + 1
+//@   ensures[setup_once] err == nil ==> s != nil && s == sess && sess.setups == 1 && s.memberID == memberID && s.generationID == generationID && s.handler == handler && s.claims == claims
 //@   nosafety
